@@ -546,6 +546,9 @@ def run(ctx):
     directed = directed_cases()
     hargs = summ_hard.aggregate_args()
     for hi, (name, hcells) in enumerate(summ_hard.triangles()):   # notes/HARDENING.md families, every run
+        if isinstance(hcells, Exception):
+            S.report_family_refused(ctx, name, hcells)
+            continue
         for a in [hargs[0]] + [hargs[1 + (hi + j) % (len(hargs) - 1)] for j in range(3)]:
             if name.startswith("I:") and not a["summarize_premium"] and not model_sort_is_stable():
                 a = {**a, "summarize_premium": True}
@@ -554,7 +557,11 @@ def run(ctx):
                                          "eval_resolution": a["eval_resolution"]}))
     n += len(directed)
     for idx in range(n):
-        cells, args, info = directed[idx] if idx < len(directed) else g.agg_case()
+        try:
+            cells, args, info = directed[idx] if idx < len(directed) else g.agg_case()
+        except Exception as ex:  # noqa: BLE001  (a constructor refused valid generated input)
+            S.report_generator_refused(ctx, ex)
+            continue
         try:
             t, (status, res), fails_h = run_aggregate(cells, args, twice=idx < len(directed))
         except Exception:  # noqa: BLE001
@@ -642,6 +649,8 @@ def run(ctx):
 
 
 def replay(ctx, data):
+    if data.get("op") == "build-family":
+        return S.replay_family(data)
     cells = S.cells_from_data(data["cells"])
     args = args_from_data(data["args"])
     t, (status, res) = run_aggregate(cells, args)
